@@ -45,7 +45,7 @@ class Problem:
             ok = np.isfinite(sv["t"]) & np.isfinite(sv["rv"]) & np.isfinite(sv["err"])
             t += list(np.asarray(sv["t"])[ok])
             y += list((np.asarray(sv["rv"]) * U(sv["unit"])).to_value(du)[ok])
-            s += list((np.asarray(sv["err"]) * U(sv["unit"])).to_value(du)[ok])
+            s += list((np.asarray(sv["err"]) * U(sv.get("err_unit", sv["unit"]))).to_value(du)[ok])
             lab += [label] * int(ok.sum())
         t, y, s, lab = map(np.array, (t, y, s, lab))
         idx = np.argsort(t, kind="stable")
@@ -160,8 +160,10 @@ def make_problem(rng, p=None, q=None, K_kind=None, n=None, s_kind=None, units=No
         un = dunit0 if (same_units or rng.random() < 0.7) else vunit()
         f = U("km/s").to(U(un))
         rv = rng.normal(rng.normal(0, 20), scatter, len(t)) * f
-        err = scatter * es * rng.uniform(0.5, 1.5, len(t)) * f
-        pr.surveys.append(dict(t=np.array(t), rv=np.array(rv), err=np.array(err), unit=un))
+        # the uncertainties may be quoted in another (equivalent) unit than the velocities
+        eun = un if (canonical or rng.random() < 0.7) else str(rng.choice([x for x in VEL_UNITS if x != un]))
+        err = scatter * es * rng.uniform(0.5, 1.5, len(t)) * U("km/s").to(U(eun))
+        pr.surveys.append(dict(t=np.array(t), rv=np.array(rv), err=np.array(err), unit=un, err_unit=eun))
     if nsurv == 1:
         pr.keys = "single" if (data_form in (None, "single")) else None
     else:
@@ -232,7 +234,7 @@ def build_objects(pr):
     from thejoker.distributions import FixedCompanionMass
     from thejoker.prior import default_nonlinear_prior
     d = pr.desc
-    datas = [tj.RVData(t=sv["t"], rv=sv["rv"] * U(sv["unit"]), rv_err=sv["err"] * U(sv["unit"])) for sv in pr.surveys]
+    datas = [tj.RVData(t=sv["t"], rv=sv["rv"] * U(sv["unit"]), rv_err=sv["err"] * U(sv.get("err_unit", sv["unit"]))) for sv in pr.surveys]
     if pr.keys == "single":
         pr.data = datas[0]
     elif pr.keys is None:
